@@ -23,6 +23,9 @@ impl B {
         let a = self.nchars;
         for i in 0..n {
             if i > 0 { self.raw(" "); }
+            // now and then a character reference between the words (Markdown decodes it: the event's text is
+            // shorter than its source range); whatever the front-end makes of it, the words keep their places
+            if i > 0 && rng.chance(1, 7) { self.raw(["&amp; ", "&#38; ", "&copy; ", "&nbsp;", "&lt;3 ", "\\* "][rng.below(6)]); }
             let w = PROSE[rng.below(PROSE.len())];
             self.prose.push(json!({"w": w, "s": self.nchars}));
             self.raw(w);
